@@ -9,7 +9,7 @@ Schmidt ranks are recomputed here with plain NumPy.
 Public API (stable; other search modules import it)
 ---------------------------------------------------
 models
-    ``random_model_spec(rng, nsite, qn_size=1, max_d=4, neutral=False)`` -> JSON-able spec
+    ``random_model_spec(rng, nsite, qn_size=1, max_d=4, neutral=False, min_d=2, kinds=None)`` -> JSON-able spec
     ``build_model(spec)`` -> ``renormalizer.model.Model``      ``spec_of_model(model)`` -> spec
     ``site_qn(model, kind)`` -> per-site arrays ``(P_i, Q)`` of the charge carried by each physical index
     ``site_ops(model, i)`` / ``random_terms(rng, model, nterms, charge=None, cplx=False)`` -> Op terms of one charge
@@ -29,7 +29,7 @@ structure checks (independent of the library's own checkers)
     ``kind_of(mp)``  ``left_labels(mp)``  ``check_labels(mp, tol)`` -> list of problems
     ``iso_defect(mp, i, side)`` -> (||A^+A - c I||, c)   ``labels_json / dump_chain / load_chain``
 gauge histories (executed by the implementation)
-    ``random_history(rng, n, length, kind)``  ``apply_history(mp, hist)``  ``prep(mp, direction)``
+    ``random_history(rng, n, length=None, allow_partial=True)``  ``apply_history(mp, hist)``  ``prep(mp, direction)``
     ``cano(mp, direction)``  ``lossless_compress(mp, direction, m=None)``  ``LOSSLESS_M``
 """
 import numpy as np
@@ -49,18 +49,22 @@ def _qvec(q, qn_size):
     return [int(x) for x in q]
 
 
-def random_model_spec(rng, nsite, qn_size=1, max_d=4, neutral=False):
+def random_model_spec(rng, nsite, qn_size=1, max_d=4, neutral=False, min_d=2, kinds=None):
     """Draw a random chain of ``nsite`` local basis sets with ``qn_size`` conserved charges.
 
     Site kinds: ``se`` BasisSimpleElectron, ``hs`` BasisHalfSpin (with charges), ``me``
     BasisMultiElectron (any dimension 2..max_d, arbitrary charges, all matrix units as operators),
     ``sho`` BasisSHO (neutral, qn_size 1 only), ``mev`` BasisMultiElectronVac (qn_size 1 only).
-    ``neutral=True`` gives all charges zero.  Returns a list of dicts (JSON-able)."""
+    ``neutral=True`` gives all charges zero.  ``kinds`` restricts the site kinds, ``min_d`` is the
+    smallest dimension of the variable-size kinds.  Returns a list of dicts (JSON-able)."""
     spec = []
+    allowed = kinds
     for i in range(nsite):
         kinds = ["se", "hs", "me", "me"]
         if qn_size == 1:
             kinds += ["sho", "mev"]
+        if allowed is not None:
+            kinds = [k for k in kinds if k in allowed]
         k = kinds[int(rng.integers(len(kinds)))]
         if k == "se":
             if qn_size == 1:
@@ -77,16 +81,16 @@ def random_model_spec(rng, nsite, qn_size=1, max_d=4, neutral=False):
                 sq = [[int(x) for x in rng.integers(-1, 2, qn_size)] for _ in range(2)]
             d = 2
         elif k == "me":
-            d = int(rng.integers(2, max_d + 1))
+            d = int(rng.integers(min_d, max_d + 1))
             if qn_size == 1:
                 sq = [[int(rng.integers(0, 3))] for _ in range(d)]
             else:
                 sq = [[int(x) for x in rng.integers(0, 2, qn_size)] for _ in range(d)]
         elif k == "sho":
-            d = int(rng.integers(2, max_d + 1))
+            d = int(rng.integers(min_d, max_d + 1))
             sq = [[0]] * d
         else:  # mev: vacuum + (d-1) states of charge 1
-            d = int(rng.integers(2, max_d + 1))
+            d = int(rng.integers(min_d, max_d + 1))
             sq = [[0]] + [[1]] * (d - 1)
         if neutral:
             sq = [[0] * qn_size for _ in range(d)]
